@@ -814,6 +814,35 @@ def rule_formatters(run, prog):
            f"the human formatter prints something asdict() does not export, or not the first highlight: {bad}", hm.node)
 
 
+def rule_same_names(run, prog, rid="R-8.9"):
+    run.rule(rid, "both reports name a file by the name it was selected by: __main__ interpreted on a virtual tree in which `inc/api.h` "
+             "is a symbolic link to `inc/api_v2.h` (named directly, found in its directory, next to an ordinary file), in the human "
+             "and in the JSON format: the files of the two reports have the same base names in the same order", floor=1)
+    import posixpath
+    from .c16 import TREE, _Runs
+    from ..mainmodel import parse_human, parse_json
+    main = prog.fn("__main__.py::main")
+    run.require(main is not None, "anchor vanished: __main__.main")
+    link_tree = {"inc": {"api_v2.h": TREE["zz.c"], "api.h": ("->", "api_v2.h")}, "main.c": TREE["zz.c"]}
+    runs = _Runs(prog)
+    bad, n = None, 0
+    for args in (["inc/api.h"], ["inc"], ["main.c", "inc/api.h"]):
+        n += 1
+        oh = runs.run(args, tree=link_tree)
+        oj = runs.run(args, extra=[("-f", ["json"])], tree=link_tree)
+        if oh.crash is not None or oj.crash is not None:
+            continue                              # a crash is reported by R-4.x / R-16.x
+        hf, _ = parse_human(oh.stdout)
+        jf, _, _ = parse_json(oj.stdout)
+        hn = [posixpath.basename(str(x[0])) for x in hf]
+        jn = [posixpath.basename(str(x[0])) for x in (jf or [])]
+        if hn != jn and bad is None:
+            bad = (args, hn, jn)
+    run.ob(rid, f"{main.key}::same-names-in-both-formats", bad is None,
+           (f"arguments {bad[0]} (inc/api.h is a link to api_v2.h): the human report names {bad[1]}, the JSON report {bad[2]}: the two "
+            f"formats do not describe the same files") if bad else "", main.node, evaluations=n)
+
+
 def _dataclass_fields(c) -> Set[str]:
     return {st.target.id for st in c.node.body if isinstance(st, ast.AnnAssign) and isinstance(st.target, ast.Name)}
 
@@ -885,3 +914,4 @@ def check(run, prog):
     rule_line_split(run, prog, "R-8.7")
     from .c08_container import rule_container_keeps_all
     rule_container_keeps_all(run, prog, "R-8.8")
+    rule_same_names(run, prog)               # R-8.9
